@@ -113,7 +113,7 @@ Proof.
   assert (Eaux : match of_aux aux with
                  | PList l => do vals <- (if legacy_aux head_flags then mapR RD l else Ok l);
                               Ok (PDict [(K "type", K "list"); (K "values", PList vals)])
-                 | PDict kvs =>
+                 | PDict kvs | PObj CQuasiDist (PDict kvs :: _) =>
                      do vals <- (if legacy_aux head_flags
                                  then mapR (fun kv : pyval * pyval => let '(k, v) := kv in do y <- RD v; Ok (PList [k; y])) kvs
                                  else Ok (map (fun kv => PList [fst kv; snd kv]) kvs));
